@@ -384,12 +384,18 @@ func buildStore(layout [][]Doc, sealed []bool) (*store, error) {
 	return st, nil
 }
 
+// close releases the fractions (open files, caches) and removes the directory. The writing
+// fraction is left alone: the statistics goroutine every storeapi.GrpcV1 starts keeps asking the
+// manager for its Info for as long as the process lives.
 func (s *store) close() {
 	s.fm.WaitIdle()
 	func() {
 		defer func() { _ = recover() }()
+		cur := s.fm.Active()
 		for _, f := range s.fm.GetAllFracs() {
-			f.Suicide()
+			if f != cur {
+				f.Suicide()
+			}
 		}
 	}()
 	os.RemoveAll(s.dir)
